@@ -1962,6 +1962,18 @@ func E3EllipseFrameRotation(c *core.Ctx, r *core.Report) {
 					case token.QUO:
 						walk(x.X, s)
 						return
+					case token.MUL:
+						// a constant factor scales the whole sum: (a + b) * 0.5
+						for _, pair := range [][2]ast.Expr{{x.X, x.Y}, {x.Y, x.X}} {
+							if tv, ok := info.Types[pair[0]]; ok && tv.Value != nil {
+								if constant.Sign(tv.Value) < 0 {
+									walk(pair[1], -s)
+								} else {
+									walk(pair[1], s)
+								}
+								return
+							}
+						}
 					}
 				case *ast.UnaryExpr:
 					if x.Op == token.SUB {
@@ -2502,4 +2514,65 @@ func E3TextBoundsFold(c *core.Ctx, r *core.Report) {
 	}
 	r.Count("E3.text-rect-methods", n)
 	r.Floor("E3.text-rect-methods", 2)
+}
+
+// E3LineHeightsEverySpan: every span of a line takes part in the line's metrics.
+func E3LineHeightsEverySpan(c *core.Ctx, r *core.Report) {
+	r.Rule("E3.line-heights-every-span", "line.Heights is a maximum over all spans of the line, and which span decides it cannot be told from the spans' sizes (two fonts of one size differ in ascent and descent, an object is as tall as it is). Over every path through one iteration of each loop over the line's spans, a fold `v = math.Max(v, …)` into an accumulator is executed (directly, or inside a nested loop over the span's glyphs or objects); an iteration that leaves through `continue` before any fold skips a span. Skipping spans whose face is not larger than the largest seen stacks the lines of a paragraph that mixes DejaVu Serif and EB Garamond at one size 7% too close")
+	p := c.MustPkg("")
+	info := p.TypesInfo
+	fd := core.MustFuncDecl(p, "line.Heights")
+	r.Func("canvas.line.Heights")
+	isFold := func(n ast.Node) bool {
+		found := false
+		ast.Inspect(n, func(m ast.Node) bool {
+			as, ok := m.(*ast.AssignStmt)
+			if !ok || len(as.Lhs) != 1 || len(as.Rhs) != 1 {
+				return true
+			}
+			id, ok := as.Lhs[0].(*ast.Ident)
+			if !ok {
+				return true
+			}
+			if name, call := core.MathFunc(info, as.Rhs[0]); name == "Max" && len(call.Args) == 2 {
+				for _, a := range call.Args {
+					if aid, ok := core.Unparen(a).(*ast.Ident); ok && core.ObjOf(info, aid) == core.ObjOf(info, id) {
+						found = true
+					}
+				}
+			}
+			return true
+		})
+		return found
+	}
+	n := 0
+	ast.Inspect(fd.Body, func(m ast.Node) bool {
+		rs, ok := m.(*ast.RangeStmt)
+		if !ok {
+			return true
+		}
+		t := info.TypeOf(rs.X)
+		if t == nil {
+			return true
+		}
+		sl, ok := t.Underlying().(*types.Slice)
+		if !ok || !strings.HasSuffix(sl.Elem().String(), "TextSpan") {
+			return true
+		}
+		n++
+		key := fmt.Sprintf("canvas.line.Heights|span loop #%d folds every span", n)
+		ok2, bad := cpsMustHit(rs.Body.List, func(st ast.Stmt) bool { return isFold(st) })
+		if ok2 {
+			r.OK("E3.line-heights-every-span", key, c.Pos(rs.Pos()), "")
+		} else {
+			pos := rs.Pos()
+			if bad != nil {
+				pos = bad.Pos()
+			}
+			r.Fail("E3.line-heights-every-span", key, c.Pos(pos), "an iteration of the span loop can end without folding anything into the line's metrics: the span is left out of the maximum, so a span with a larger ascent or descent than the ones counted sticks out of its line")
+		}
+		return false
+	})
+	r.Count("E3.line-height-span-loops", n)
+	r.Floor("E3.line-height-span-loops", 2)
 }
